@@ -10,7 +10,13 @@
 //!   I  isolation: the same call rendered with and without poisoned caller scopes (context, global
 //!      context, set / loop variables, include parent) must give identical text.
 //!   E  escaping: body rendered in the caller's scope and escaping mode, result not escaped again.
-//!   P  priority: fallback-prefix configurations vs the model (`drv_c05 prio`) and vs the rendered text.
+//!   P  priority: fallback-prefix configurations vs the model (`drv_c05 prio`) and vs the rendered text,
+//!      the call being made from every template of the set (defining ones included), through includes,
+//!      through fallback-resolved names and from a one-off template redefining the name.
+//!   N  captures nested 1–3 (4 thorough) deep — call bodies, set blocks, filter sections, bodies printed
+//!      twice around an include — around includes / calls / loops / blocks: text comes out where written.
+//!   X  a result / body kept in a variable (set, set_global, loop variable, argument, rest map) by a
+//!      template of one escaping mode and printed by an included template of the other: inserted as is.
 //!   R  recursion: self / mutual / through-include recursion ends in the recursion error, not in a stack
 //!      overflow (child process, 2 MiB-stack thread, release profile); chains of exactly MAX and MAX+1
 //!      nested renders; vs the model (`drv_c05 rec`).
@@ -636,17 +642,22 @@ struct PrioCase {
     tpls: Vec<(String, bool)>,
 }
 
-fn run_prio(c: &PrioCase) -> (String, String) {
+/// (outcome seen from a neutral template, model request, [(call site, output, expected)] for calls
+/// made from every template of the set — the defining ones included —, through includes, through
+/// fallback-resolved names and through a one-off template that redefines the name inline)
+fn run_prio(c: &PrioCase) -> (String, String, Vec<(String, String, String)>) {
     let mut tera = new_tera();
     let _ = tera.set_fallback_prefixes(c.prefixes.clone());
     let mut list: Vec<(String, String)> = c
         .tpls
         .iter()
         .map(|(n, defines)| {
-            (n.clone(), if *defines { format!("{{% component Btn() %}}from:{n}{{% endcomponent Btn %}}") } else { "nothing".to_string() })
+            (n.clone(), if *defines { format!("{{% component Btn() %}}from:{n}{{% endcomponent Btn %}}[{{{{ <Btn/> }}}}]") } else { "[{{ <Btn/> }}]".to_string() })
         })
         .collect();
     list.push(("zz_main.txt".into(), "{{ <Btn/> }}".into()));
+    list.push(("zz_inc_all.txt".into(), c.tpls.iter().map(|(n, _)| format!("{{% include \"{n}\" %}}")).collect::<String>()));
+    let mut sites = Vec::new();
     let imp = match catch(std::panic::AssertUnwindSafe(|| tera.add_raw_templates(list))) {
         Err(p) => format!("panic {p}"),
         Ok(Err(e)) => {
@@ -654,7 +665,33 @@ fn run_prio(c: &PrioCase) -> (String, String) {
             if m.contains("is defined in both") { "err duplicate".to_string() } else { format!("err other {m}") }
         }
         Ok(Ok(())) => match tera.render("zz_main.txt", &Context::new()) {
-            Ok(s) => format!("ok {}", s.trim_start_matches("from:")),
+            Ok(s) => {
+                let best = s.trim_start_matches("from:").to_string();
+                let want = format!("[from:{best}]");
+                let show = |r: Result<String, tera::Error>| r.unwrap_or_else(|e| format!("error {}", err_text(&e)));
+                for (n, _) in &c.tpls {
+                    sites.push((format!("render(\"{n}\")"), show(tera.render(n, &Context::new())), want.clone()));
+                    // by the name a fallback prefix resolves (whichever template that is, it makes the same call)
+                    for p in &c.prefixes {
+                        if !p.is_empty() && n.starts_with(p.as_str()) {
+                            let short = &n[p.len()..];
+                            if let Ok(out) = tera.render(short, &Context::new()) {
+                                sites.push((format!("render(\"{short}\") resolved through the prefixes"), out, want.clone()));
+                            }
+                        }
+                    }
+                }
+                sites.push(("a template including every template of the set".into(), show(tera.render("zz_inc_all.txt", &Context::new())), want.repeat(c.tpls.len())));
+                // a one-off template that defines the name itself: on the engine the registered table
+                // is consulted first (`tera.components.get(name)` before `template.components`)
+                sites.push((
+                    "render_str with an inline definition of the same name".into(),
+                    show(tera.render_str("{% component Btn() %}from:inline{% endcomponent Btn %}[{{ <Btn/> }}]", &Context::new(), false)),
+                    want.clone(),
+                ));
+                sites.push(("render_str calling the registered name".into(), show(tera.render_str("[{{ <Btn/> }}]{% include \"zz_main.txt\" %}", &Context::new(), false)), format!("{want}from:{best}")));
+                format!("ok {best}")
+            }
             Err(e) => format!("err render {}", err_text(&e)),
         },
     };
@@ -669,7 +706,7 @@ fn run_prio(c: &PrioCase) -> (String, String) {
     for (n, _) in names {
         req.push_str(&format!(" Btn {n}"));
     }
-    (imp, req)
+    (imp, req, sites)
 }
 
 /// the property, directly: the definition of (strictly) highest priority is used; two at the
@@ -680,6 +717,165 @@ fn spec_prio(c: &PrioCase) -> Option<String> {
     let best = defs.iter().map(|n| prio(n)).min()?;
     let at_best: Vec<&&String> = defs.iter().filter(|n| prio(n) == best).collect();
     if at_best.len() == 1 { Some(format!("ok {}", at_best[0])) } else { Some("err duplicate".into()) }
+}
+
+// ------------------------------------------------------------------ stream N: bodies nested in captures
+
+/// Wrap `inner` (template text, expected text) in one more capture of kind `k` at nesting level `lvl`:
+/// 0 = body of a component call, 1 = set block printed afterwards, 2 = filter section, 3 = body of a
+/// component call whose definition prints the body twice around an include
+fn wrap_capture(k: usize, lvl: usize, inner: (String, String)) -> (String, String) {
+    let (t, e) = inner;
+    match k % 4 {
+        0 => (format!("{lvl}({{% <w{lvl}> %}}{lvl}a{t}{lvl}b{{% </w{lvl}> %}}){lvl}"), format!("{lvl}([w{lvl}:{lvl}a{e}{lvl}b]){lvl}")),
+        1 => (format!("{lvl}({{% set s{lvl} %}}{lvl}a{t}{lvl}b{{% endset %}}{{{{ s{lvl} }}}}){lvl}"), format!("{lvl}({lvl}a{e}{lvl}b){lvl}")),
+        2 => (format!("{lvl}({{% filter upper %}}{lvl}a{t}{lvl}b{{% endfilter %}}){lvl}"), format!("{lvl}({}){lvl}", format!("{lvl}a{e}{lvl}b").to_uppercase())),
+        _ => (format!("{lvl}({{% <d{lvl}> %}}{lvl}a{t}{lvl}b{{% </d{lvl}> %}}){lvl}"), format!("{lvl}([d{lvl}:{lvl}a{e}{lvl}b|P|{lvl}a{e}{lvl}b]){lvl}")),
+    }
+}
+
+/// every nesting of 1–3 captures of every kind around a body that contains an include, a component
+/// call (inline and with a body that includes), a block, and an include of a template that itself
+/// captures: the text must come out where it was written (expected text by construction); rendered
+/// in a non-escaping and in an escaping template (the texts contain no special characters)
+fn nested_capture_stream(report: &mut Report, max_levels: usize) -> Option<(String, serde_json::Value)> {
+    let inners: Vec<(String, String)> = vec![
+        ("x{% include \"part.txt\" %}y".into(), "xPy".into()),
+        ("x{{ <leaf/> }}y".into(), "xLy".into()),
+        ("x{% <w9> %}m{% include \"part.txt\" %}n{% </w9> %}y".into(), "x[w9:mPn]y".into()),
+        ("x{% include \"capt.txt\" %}y".into(), "x(cPc)[w9:qPq]y".into()),
+        ("x{% for i in [1, 2] %}{% include \"part.txt\" %}{{ i }}{% endfor %}y".into(), "xP1P2y".into()),
+        ("x{% include \"part.txt\" %}{% include \"part.txt\" %}y".into(), "xPPy".into()),
+    ];
+    let mut defs = String::from("{% component leaf() %}L{% endcomponent leaf %}");
+    for l in 0..=9 {
+        defs.push_str(&format!("{{% component w{l}() %}}[w{l}:{{{{ body }}}}]{{% endcomponent w{l} %}}"));
+        defs.push_str(&format!("{{% component d{l}() %}}[d{l}:{{{{ body }}}}|{{% include \"part.txt\" %}}|{{{{ body }}}}]{{% endcomponent d{l} %}}"));
+    }
+    let mut cases: Vec<(String, String, String)> = Vec::new(); // (description, template, expected)
+    for (ii, inner) in inners.iter().enumerate() {
+        for levels in 1..=max_levels {
+            let combos = 4usize.pow(levels as u32);
+            for combo in 0..combos {
+                let mut cur = inner.clone();
+                let mut kinds = Vec::new();
+                let mut c = combo;
+                for lvl in (1..=levels).rev() {
+                    let k = c % 4;
+                    c /= 4;
+                    kinds.push(k);
+                    cur = wrap_capture(k, lvl, cur);
+                }
+                cases.push((format!("inner #{ii} inside captures {kinds:?} (innermost first; 0 call body, 1 set block, 2 filter section, 3 call body printed twice around an include)"), cur.0, cur.1));
+            }
+        }
+    }
+    let mut first = None;
+    for sfx in [".txt", ".html"] {
+        let mut tera = new_tera();
+        let mut list: Vec<(String, String)> = vec![
+            ("defs.txt".into(), defs.clone()),
+            ("part.txt".into(), "P".into()),
+            ("capt.txt".into(), "{% set z %}c{% include \"part.txt\" %}c{% endset %}({{ z }}){% <w9> %}q{% include \"part.txt\" %}q{% </w9> %}".into()),
+        ];
+        for (i, (_, t, _)) in cases.iter().enumerate() {
+            list.push((format!("n{i}{sfx}"), t.clone()));
+            // the same inside a block of a child template, and as the body of an included template
+            list.push((format!("nb{i}{sfx}"), format!("{{% extends \"nbase.txt\" %}}{{% block c %}}{t}{{% endblock c %}}")));
+        }
+        list.push(("nbase.txt".into(), "<{% block c %}{% endblock c %}>".into()));
+        if let Err(e) = tera.add_raw_templates(list) {
+            return Some((format!("nested captures: templates do not register: {e:?}"), serde_json::json!({"stream": "nested"})));
+        }
+        for (i, (desc, t, want)) in cases.iter().enumerate() {
+            for (name, want) in [(format!("n{i}{sfx}"), want.clone()), (format!("nb{i}{sfx}"), format!("<{want}>"))] {
+                report.evaluations += 1;
+                report.oracle_checks += 1;
+                let got = render_with(&tera, &name, &Context::new());
+                if got != format!("ok {want}") {
+                    report.oracle_failures += 1;
+                    if first.is_none() {
+                        first = Some((format!("nested captures: {desc}: `{t}` (in {name}) renders `{got}`, the text written there is `{want}`"), serde_json::json!({"stream": "nested", "template": t, "want": want})));
+                    }
+                }
+            }
+        }
+    }
+    report.count_n("nested-captures.templates", cases.len() as u64);
+    first
+}
+
+// ------------------------------------------------------------------ stream X: results across autoescape boundaries
+
+/// A component result / body / argument kept in a variable by one template and printed by another
+/// one with the *other* escaping mode (include), via set, set_global, loop variable, component
+/// argument and rest map: it is inserted as is — what was (or was not) escaped when the component ran
+/// in the caller's mode stays exactly that.
+fn boundary_stream(report: &mut Report) -> Option<(String, serde_json::Value)> {
+    let data = ["<>&\"'", "a<b", "plain", "x' onmouseover=\"y"];
+    let mut first = None;
+    for d in data {
+        for caller_html in [false, true] {
+            let (csfx, psfx) = if caller_html { (".html", ".txt") } else { (".txt", ".html") };
+            let esc = |s: &str| if caller_html { s.replace('&', "&amp;").replace('<', "&lt;").replace('>', "&gt;").replace('"', "&quot;").replace('\'', "&#39;") } else { s.to_string() };
+            // what the component calls produce in the caller's mode
+            let res = format!("<b>{}&</b>", esc(d));
+            let bod = format!("[w:<i>{}</i>]", esc(d));
+            let routes: Vec<(&str, String, String)> = vec![
+                ("set", format!("{{% set r = <show d={{d}}/> %}}{{% include \"p_r{psfx}\" %}}"), res.clone()),
+                ("set_global", format!("{{% for i in [1] %}}{{% set_global r = <show d={{d}}/> %}}{{% endfor %}}{{% include \"p_r{psfx}\" %}}"), res.clone()),
+                ("loop variable", format!("{{% for r in [<show d={{d}}/>] %}}{{% include \"p_r{psfx}\" %}}{{% endfor %}}"), res.clone()),
+                ("component argument", format!("{{% set r = <show d={{d}}/> %}}{{{{ <via a={{r}}/> }}}}"), res.clone()),
+                ("rest map", format!("{{% set r = <show d={{d}}/> %}}{{{{ <via_rest a={{r}}/> }}}}"), res.clone()),
+                ("result of a call with body, set", format!("{{% set r %}}{{% <wrap> %}}<i>{{{{ d }}}}</i>{{% </wrap> %}}{{% endset %}}{{% include \"p_r{psfx}\" %}}"), bod.clone()),
+                ("body printed by an included template", format!("{{% <wrap_inc> %}}<i>{{{{ d }}}}</i>{{% </wrap_inc> %}}"), bod.clone()),
+                ("result printed directly and through the include", format!("{{{{ <show d={{d}}/> }}}}|{{% set r = <show d={{d}}/> %}}{{% include \"p_r{psfx}\" %}}"), format!("{res}|{res}")),
+            ];
+            for api in ["render", "render_str"] {
+                if api == "render_str" && caller_html {
+                    // covered by render; render_str(.., true) of a template including a .txt partial is the same route
+                }
+                let mut tera = new_tera();
+                let mut list: Vec<(String, String)> = vec![
+                    (format!("defs{psfx}"), format!("{{% component show(d) %}}<b>{{{{ d }}}}&</b>{{% endcomponent show %}}{{% component wrap() %}}[w:{{{{ body }}}}]{{% endcomponent wrap %}}{{% component wrap_inc() %}}{{% include \"p_body{psfx}\" %}}{{% endcomponent wrap_inc %}}{{% component via(a) %}}{{% include \"p_a{psfx}\" %}}{{% endcomponent via %}}{{% component via_rest(...rest) %}}{{% set a = rest.a %}}{{% include \"p_a{psfx}\" %}}{{% endcomponent via_rest %}}")),
+                    (format!("p_r{psfx}"), "{{ r }}".into()),
+                    (format!("p_a{psfx}"), "{{ a }}".into()),
+                    (format!("p_body{psfx}"), "[w:{{ body }}]".into()),
+                ];
+                for (k, (_, t, _)) in routes.iter().enumerate() {
+                    list.push((format!("m{k}{csfx}"), t.clone()));
+                }
+                if let Err(e) = tera.add_raw_templates(list) {
+                    return Some((format!("boundary: templates do not register: {e:?}"), serde_json::json!({"stream": "boundary"})));
+                }
+                let mut ctx = Context::new();
+                ctx.insert("d", d);
+                for (k, (route, t, want)) in routes.iter().enumerate() {
+                    report.evaluations += 1;
+                    report.oracle_checks += 1;
+                    let got = if api == "render" {
+                        render_with(&tera, &format!("m{k}{csfx}"), &ctx)
+                    } else {
+                        match catch(std::panic::AssertUnwindSafe(|| tera.render_str(t, &ctx, caller_html))) {
+                            Ok(Ok(s)) => format!("ok {s}"),
+                            Ok(Err(e)) => format!("err {}", err_text(&e)),
+                            Err(p) => format!("panic {p}"),
+                        }
+                    };
+                    if got != format!("ok {want}") {
+                        report.oracle_failures += 1;
+                        if first.is_none() {
+                            first = Some((
+                                format!("result not escaped again, across an autoescape boundary: caller m{k}{csfx} ({api}), route `{route}`, printed by a {psfx} partial, data {d:?}: got `{got}`, the component's text is `{want}` (`{t}`)"),
+                                serde_json::json!({"stream": "boundary", "route": route, "data": d, "caller_html": caller_html}),
+                            ));
+                        }
+                    }
+                }
+            }
+        }
+    }
+    first
 }
 
 // ------------------------------------------------------------------ recursion (child process)
@@ -996,6 +1192,8 @@ fn main() {
                 match other {
                     "isolation" => println!("{:?}", isolation(&mut rng, 2000).1),
                     "escaping" => println!("{:?}", escaping(&mut report)),
+                    "nested" => println!("{:?}", nested_capture_stream(&mut report, 3)),
+                    "boundary" => println!("{:?}", boundary_stream(&mut report)),
                     "api" => println!("{:?}", api_equiv(&mut rng, 5000, &mut report)),
                     _ => println!("unknown stream"),
                 }
@@ -1186,6 +1384,16 @@ fn main() {
         report.violation("property", msg, r);
     }
 
+    // ---- stream N: captures nested around includes / calls / blocks
+    if let Some((msg, r)) = nested_capture_stream(&mut report, env.budget(3, 4)) {
+        report.violation("property", msg, r);
+    }
+
+    // ---- stream X: results kept in variables across autoescape boundaries
+    if let Some((msg, r)) = boundary_stream(&mut report) {
+        report.violation("property", msg, r);
+    }
+
     // ---- stream P
     {
         let names = ["btn.html", "a/btn.html", "b/btn.html", "a/x/btn.html", "b/y.html", "c.html", "a/z.html", "a0.html"];
@@ -1210,11 +1418,27 @@ fn main() {
                 pc.push(PrioCase { prefixes: ps.clone(), tpls });
             }
         }
-        let results: Vec<(String, String)> = pc.iter().map(run_prio).collect();
+        let results: Vec<(String, String, Vec<(String, String, String)>)> = pc.iter().map(run_prio).collect();
         let reqs: Vec<String> = results.iter().map(|r| r.1.clone()).collect();
         let model = driver::run_batch_parallel(&exe, &reqs, threads).unwrap_or_default();
         let mut order_dependent = 0u64;
-        for (i, (imp, _)) in results.iter().enumerate() {
+        for (i, (imp, _, sites)) in results.iter().enumerate() {
+            // the same definition is used wherever the call is made from
+            for (site, got, want) in sites {
+                report.oracle_checks += 1;
+                report.count("priority.call-sites");
+                if got != want {
+                    report.oracle_failures += 1;
+                    let tag = if site.starts_with("render_str with an inline") { "priority call site (one-off template redefining the name; the engine consults the registered table first)" } else { "priority call site" };
+                    if report.violations.iter().all(|v| !v.summary.starts_with(&format!("{tag}:"))) {
+                        report.violation(
+                            "property",
+                            format!("{tag}: prefixes {:?}, definitions in {:?}: the call made from {site} gives `{got}`, the highest-priority definition gives `{want}`", pc[i].prefixes, pc[i].tpls.iter().filter(|t| t.1).map(|t| &t.0).collect::<Vec<_>>()),
+                            serde_json::json!({"stream": "priority", "request": reqs[i], "site": site}),
+                        );
+                    }
+                }
+            }
             report.evaluations += 1;
             report.count(&format!("priority.{}", imp.split(' ').take(if imp.starts_with("err") { 2 } else { 1 }).collect::<Vec<_>>().join(".")));
             if distinct.insert(hash_of(&reqs[i])) {
